@@ -84,7 +84,7 @@ def judge(ctx, spec, items, what):
 
 def tokenize_rough(text):
     import re
-    return re.findall(r'/\*.*?\*/|//[^\n\r\u2028\u2029]*|\r\n|[\n\r\u2028\u2029]|[\w$]+|\+\+|--|/=|[^\s\ufeff]', text, re.S)
+    return re.findall(r'''/\*.*?\*/|//[^\n\r\u2028\u2029]*|'(?:[^'\\\n\r]|\\.)*'|"(?:[^"\\\n\r]|\\.)*"|\r\n|[\n\r\u2028\u2029]|[\w$]+|\+\+|--|/=|[^\s\ufeff]''', text, re.S)
 
 
 def known_witnesses(ctx, spec):
